@@ -224,3 +224,66 @@ size_t rustsecp256k1_v0_10_0_context_preallocated_size(unsigned int flags) { ret
 void *rustsecp256k1_v0_10_0_context_preallocated_create(void *prealloc, unsigned int flags) { return prealloc; }
 void rustsecp256k1_v0_10_0_context_preallocated_destroy(void *ctx) {}
 int rustsecp256k1_v0_10_0_context_randomize(void *ctx, const uc *seed32) { return 1; }
+
+/* ---------------- unblinded generators / commitments and the balance check (C05) -------
+ * Exact algebra for UNBLINDED objects only (blinding factor zero):
+ *   generator of tag T      := the point whose serialized form is 0x0a || T  (distinct tags, distinct generators)
+ *   commit(v, gen(T))       := { 0x08, T, v, marker }   (value v of asset T)
+ *   verify_tally(pos, neg)  := for every tag, sum of values on both sides is equal (128-bit sums),
+ * which is what the curve equation says when all generators are independent. Any blinded object
+ * makes the verdict an arbitrary boolean. */
+int rustsecp256k1zkp_v0_10_0_generator_generate_blinded(const void *ctx, uc *gen64, const uc *key32, const uc *blind32) {
+  uc z[32];
+  memset(z, 0, 32);
+  memset(gen64, 0, 64);
+  if (cmp32(blind32, z) == 0) {
+    gen64[0] = 0x0a;
+    memcpy(gen64 + 1, key32, 32);
+    return 1;
+  }
+  __CPROVER_assert(0, "unsupported in secp model: blinded generator generation");
+  return 0;
+}
+int rustsecp256k1zkp_v0_10_0_pedersen_commit(const void *ctx, uc *commit64, const uc *blind32, uint64_t value, const uc *gen64) {
+  uc z[32];
+  memset(z, 0, 32);
+  if (cmp32(blind32, z) != 0) {
+    __CPROVER_assert(0, "unsupported in secp model: blinded pedersen commitment");
+    return 0;
+  }
+  memset(commit64, 0, 64);
+  commit64[0] = 0x08;
+  memcpy(commit64 + 1, gen64 + 1, 32);
+  st64(commit64 + 33, value);
+  commit64[41] = 1; /* algebraic (unblinded) marker */
+  return 1;
+}
+_Bool nondet_bool_tally(void);
+static unsigned __int128 side_sum(const uc *const *c, size_t n, const uc *tag) {
+  unsigned __int128 s = 0;
+  if (n > 0 && cmp32(c[0] + 1, tag) == 0) s += ld64(c[0] + 33);
+  if (n > 1 && cmp32(c[1] + 1, tag) == 0) s += ld64(c[1] + 33);
+  if (n > 2 && cmp32(c[2] + 1, tag) == 0) s += ld64(c[2] + 33);
+  if (n > 3 && cmp32(c[3] + 1, tag) == 0) s += ld64(c[3] + 33);
+  return s;
+}
+static int all_algebraic(const uc *const *c, size_t n) {
+  return (n < 1 || c[0][41] == 1) && (n < 2 || c[1][41] == 1) && (n < 3 || c[2][41] == 1) && (n < 4 || c[3][41] == 1);
+}
+static int balanced_for(const uc *tag, const uc *const *p, size_t np, const uc *const *q, size_t nq) {
+  return side_sum(p, np, tag) == side_sum(q, nq, tag);
+}
+int rustsecp256k1zkp_v0_10_0_pedersen_verify_tally(const void *ctx, const uc *const *pos, size_t np, const uc *const *neg, size_t nn) {
+  __CPROVER_assert(np <= 4 && nn <= 4, "secp model: verify_tally handles at most 4 commitments per side");
+  if (!all_algebraic(pos, np) || !all_algebraic(neg, nn)) return nondet_bool_tally();
+  int ok = 1;
+  if (np > 0) ok = ok && balanced_for(pos[0] + 1, pos, np, neg, nn);
+  if (np > 1) ok = ok && balanced_for(pos[1] + 1, pos, np, neg, nn);
+  if (np > 2) ok = ok && balanced_for(pos[2] + 1, pos, np, neg, nn);
+  if (np > 3) ok = ok && balanced_for(pos[3] + 1, pos, np, neg, nn);
+  if (nn > 0) ok = ok && balanced_for(neg[0] + 1, pos, np, neg, nn);
+  if (nn > 1) ok = ok && balanced_for(neg[1] + 1, pos, np, neg, nn);
+  if (nn > 2) ok = ok && balanced_for(neg[2] + 1, pos, np, neg, nn);
+  if (nn > 3) ok = ok && balanced_for(neg[3] + 1, pos, np, neg, nn);
+  return ok;
+}
